@@ -69,7 +69,7 @@ CHECKS = {
     "C09": {
         "scenarios": [{"name": "restart"}],
         "accept": ["restart:"],
-        "technique": "Lean: restart_independent_partial — below PIP-10 every run with any number of restarts (and kills) ends in the ledger and sync height of the run without them, for every chain and fork table; block outcome independent of the cache below PIP-10; reload path is a function of the database; kernel-checked witness (1000 vs 1057) that above PIP-10 the incremental and reload averages differ after an ungraded block. Tie: chains (with ungraded blocks; with assets quoted at 0 by the 2.0.2 band rule; era-crossing) synced continuously and with clean restarts, both in lock-step with the model, final ledgers compared",
+        "technique": "Lean: restart_independent_whole_windows — at EVERY height (above PIP-10 too) every run with any number of restarts, kills and failed iterations ends in the ledger and sync height of the run without them provided no averaging window the incremental path starts from has a hole (per-ticker semantics of the cache: cached / reloaded / incremental answer = quotes of the height window; count trim = height trim on a window without holes; the block transaction reads averages only through per-ticker lookups); witness_window_has_a_hole: the known finding's witness is exactly such a hole; restart_independent_partial — below PIP-10 every run with any number of restarts (and kills) ends in the ledger and sync height of the run without them, for every chain and fork table; block outcome independent of the cache below PIP-10; reload path is a function of the database; kernel-checked witness (1000 vs 1057) that above PIP-10 the incremental and reload averages differ after an ungraded block. Tie: chains (with ungraded blocks; with assets quoted at 0 by the 2.0.2 band rule; era-crossing) synced continuously and with clean restarts, both in lock-step with the model, final ledgers compared",
         "assumptions": [SQLITE],
         "design_ref": "DESIGN.md §7 C09",
     },
